@@ -72,3 +72,21 @@ def content_of(grammar, type_name: str) -> Any:
     if isinstance(node, TerminalNode):
         return node.symbol.value()._value
     raise ValueError(f"content rule of {type_name} is not a single literal")
+
+
+def parser_accepts(grammar, tree) -> bool:
+    """the real IterativeParser asked directly: does it accept the history's word of message types in
+    ParsingMode.COMPLETE under the reduced (message-level) grammar?  (what predict() relays as `is_complete`,
+    without the forecasting code in between)"""
+    from fandango.io.navigation.stategrammarconverter import StateGrammarConverter
+    from fandango.language.grammar import ParsingMode
+    from fandango.language.grammar.parser.iterative_parser import IterativeParser
+    from fandango.language.symbols import NonTerminal
+    reduced = StateGrammarConverter(grammar.grammar_settings).process(grammar.rules)
+    word = "".join(m.msg.symbol.name() for m in tree.protocol_msgs())
+    p = IterativeParser(reduced)
+    p.new_parse(NonTerminal("<start>"), ParsingMode.COMPLETE)
+    for _t, is_complete in p.consume(word):
+        if is_complete:
+            return True
+    return False
